@@ -17,7 +17,7 @@ import (
 type dupScenario struct {
 	name   string
 	setup  []string  // calls made sequentially first
-	calls  [2]string // the two concurrent calls
+	calls  [2]string // the two concurrent clients; a client makes its calls (separated by ",") one after the other
 	target string    // transaction the scenario is about
 }
 
@@ -27,6 +27,9 @@ var dupScenarios = []dupScenario{
 	{"Reject||Reject", []string{"Propose:c1"}, [2]string{"Reject:B", "Reject:B"}, "c1"},
 	{"Propose(c1)||Propose(c1)", nil, [2]string{"Propose:c1", "Propose:c1"}, "c1"},
 	{"Propose(s1)||Propose(s1)", nil, [2]string{"Propose:s1", "Propose:s1"}, "s1"},
+	// the second client re-proposes the contract and confirms again while the first confirmation is in flight:
+	// the only way two confirmations of one contract can both get past the awaiting cache and reach CreateLeaf
+	{"Confirm||Propose(c1),Confirm", []string{"Propose:c1"}, [2]string{"Confirm:B", "Propose:c1,Confirm:B"}, "c1"},
 }
 
 var schedFx *fixture
@@ -59,11 +62,20 @@ func dupBody(sc dupScenario) func(x *sched.X) {
 		var hs []*vsched.Handle
 		for i := range sc.calls {
 			i := i
-			rq := fx.buildWrite(sc.calls[i])
+			var rqs []*request
+			for _, ev := range strings.Split(sc.calls[i], ",") {
+				rqs = append(rqs, fx.buildWrite(ev))
+			}
 			hs = append(hs, vsched.GoClient(fmt.Sprintf("C%d", i), func() {
-				rp := fx.send(rq)
-				o.results[i] = rp.class
-				o.panics[i] = rp.panicked
+				var cls []string
+				for _, rq := range rqs {
+					rp := fx.send(rq)
+					cls = append(cls, rp.class)
+					if rp.panicked != "" {
+						o.panics[i] = rp.panicked
+					}
+				}
+				o.results[i] = strings.Join(cls, ",")
 			}))
 		}
 		vsched.Join(hs...)
@@ -97,12 +109,20 @@ func dupOracle(sc dupScenario) func(x *sched.X, r *vsched.Result) []common.Viola
 		}
 		o := x.Vars["o"].(*dupOutcome)
 		anyOK := false
-		for i, c := range o.results {
-			if c == "ok" {
-				anyOK = true
+		reproposes := false
+		for i, cs := range o.results {
+			evs := strings.Split(sc.calls[i], ",")
+			for j, c := range strings.Split(cs, ",") {
+				// success of a sealing call (everything except the proposal of a contract)
+				if c == "ok" && !(strings.HasPrefix(evs[j], "Propose:c1") && len(sc.setup) > 0) {
+					anyOK = true
+				}
+				if c == "panic" {
+					add("C16.no-panic", "C16.panic/"+rpcOf(evs[j]), fmt.Sprintf("%s panicked: %s", evs[j], o.panics[i]))
+				}
 			}
-			if c == "panic" {
-				add("C16.no-panic", "C16.panic/"+rpcOf(sc.calls[i]), fmt.Sprintf("%s panicked: %s", sc.calls[i], o.panics[i]))
+			if len(sc.setup) > 0 && strings.Contains(sc.calls[i], "Propose:c1") {
+				reproposes = true
 			}
 		}
 		for _, p := range r.Panics {
@@ -116,7 +136,8 @@ func dupOracle(sc dupScenario) func(x *sched.X, r *vsched.Result) []common.Viola
 			add("C16.receiver-acts", "C16.sealed-without-receiver/Propose/on-proposal", fmt.Sprintf("contract %s was sealed by concurrent proposals", sc.target))
 		}
 		if sc.target == "c1" {
-			if o.sealedN >= 1 && o.awaiting {
+			// (a contract proposed again after it was sealed is held as awaiting again - also sequentially, see RefNotary)
+			if o.sealedN >= 1 && o.awaiting && !reproposes {
 				add("C16.awaiting-consistent", "C16.awaiting-after-sealed/"+sc.name, fmt.Sprintf("%s is sealed and still awaiting (answers %v): %s", sc.target, o.results, o.final.stateOf()))
 			}
 			if o.sealedN == 0 && !o.awaiting && anyOK {
